@@ -137,14 +137,18 @@ def _corr_unit(unit):
         n += 1
         stats['ops'] = stats.get('ops', 0) + len(h)
         stats['refused_steps'] = stats.get('refused_steps', 0) + a.count('FAIL')
-        stats['len_%s' % ('1' if len(h) <= 1 else '2' if len(h) == 2 else '3-8' if len(h) <= 8 else '9+')] = \
-            stats.get('len_%s' % ('1' if len(h) <= 1 else '2' if len(h) == 2 else '3-8' if len(h) <= 8 else '9+'), 0) + 1
+        _bucket(stats, h)
         if len(h) >= 2:
             hashes.append(_crc(doc, ';'.join(h)))
         if a != m and len(fails) < 2:
             fails.append({'key': 'model-mismatch', 'what': 'history of %d ops' % len(h),
                           'input': {'doc': doc, 'ops': h}})
     return n, hashes, fails, stats
+
+
+def _bucket(stats, h):
+    b = 'len_' + ('1' if len(h) <= 1 else '2' if len(h) == 2 else '3-8' if len(h) <= 8 else '9-30')
+    stats[b] = stats.get(b, 0) + 1
 
 
 def _collect(r, results):
@@ -211,6 +215,7 @@ def run_history(doc, ops, stats=None):
             continue
         before = L.snapshot(soup)
         texts = L.frozen_text(before)
+        desync = P.kind == 'aop' and _shadow_desync(L.locate(soup, P.path)[1].args)
         exc = None
         try:
             L.perform(soup, P, L.step_variant(k, op))
@@ -221,11 +226,17 @@ def run_history(doc, ops, stats=None):
         applied += 1
         now = str(soup)
         want = ref if res[0] == 'refuse' else L.ref_apply(ref, res[1])
-        if now != want:
+        if now != want or (exc is not None and res[0] == 'splice'):
             how = ('the reference refuses this edit (%s)' % res[1]) if res[0] == 'refuse' else \
                 ('the reference splices %s' % [(a, a + n, new) for a, n, new in res[1]])
-            return ('history-diverges', 'step %d (%s)%s: %s; reference %r, str(soup) %r' % (
-                k, op_text(op), ' raised %s' % type(exc).__name__ if exc else '', how, want[:160], now[:160]), k)
+            key = 'history-diverges'
+            if desync and exc is not None:
+                # attributed: the shadow list TexArgs.all no longer holds the objects of the list (pop of a twin
+                # removed the other twin from it), so that the next insertion raises after inserting
+                key = 'args-shadow-desync'
+            return (key, 'step %d (%s)%s: %s; reference %r, str(soup) %r' % (
+                k, op_text(op), ' raised %s (%s)' % (type(exc).__name__, str(exc)[:60]) if exc else '', how,
+                want[:160], now[:160]), k)
         ref = want
         if exc is not None or res[0] == 'refuse':
             if exc is not None:
@@ -247,6 +258,26 @@ def run_history(doc, ops, stats=None):
     if stats is not None:
         stats['applied_steps'] = stats.get('applied_steps', 0) + applied
     return None
+
+
+def _shadow_desync(args):
+    """TexArgs keeps a shadow list `.all` (arguments and the whitespace between them): does it
+    still hold exactly the argument objects of the list, in order?"""
+    from TexSoup import data as D
+    try:
+        shadow = [a for a in args.all if isinstance(a, (D.TexGroup, D.TexCmd))]
+    except Exception:
+        return False
+    return [id(a) for a in shadow] != [id(a) for a in args]
+
+
+# histories that are always run (found by the random search, kept so that the result does not depend on the seed)
+FIXED_HISTORIES = [
+    ('\\x{a}{a}', ['aop b0 pop 1', 'str b0 ' + enc('b'), 'aop b0 app s:' + enc('{z}')]),
+    ('\\x{a}{a}', ['aop b0 pop 1', 'del b0.a0:0', 'aop b0 ext s:' + enc('{z}') + ',s:' + enc('[w]')]),
+    ('\\x{a}{a}', ['aop b0 pop 0', 'str b0 ' + enc('b'), 'aop b0 app s:' + enc('{z}')]),
+    ('\\x{a}{b}', ['aop b0 ins 2 g:' + enc('\\x{a}'), 'del b0.a0:0', 'aop b0 app s:' + enc('{z}')]),
+]
 
 
 def op_text(op):
@@ -304,6 +335,7 @@ def _oracle_unit(unit):
     for doc, h in cases:
         x = run_history(doc, h, stats)
         n += 1
+        _bucket(stats, h)
         if len(h) >= 2:
             hashes.append(_crc(doc, ';'.join(h)))
         if x is not None and len(fails) < 3:
@@ -318,8 +350,7 @@ def oracle(ctx, seeds, scale):
     seeded = [(s['doc'], s['ops']) for s in seeds
               if isinstance(s, dict) and isinstance(s.get('doc'), str) and isinstance(s.get('ops'), list)]
     units, depth, n, max_len = _plan(ctx, rng, oracle=True, scale=scale)
-    if seeded:
-        units.insert(0, ('given', seeded[:100]))
+    units.insert(0, ('given', [(d, list(h)) for d, h in FIXED_HISTORIES] + seeded[:100]))
     _collect(r, _util.pmap(_oracle_unit, units))
     seen = set()
     for f in r.failures[:6]:
